@@ -46,6 +46,11 @@ CHECKS = {
                   'topological sort, transitive reduction/closure and flatten (nested graphs incl. empty ones) are compared with the mathematical model. '
                   'Containers hash by identity so each path is one concrete state: exhaustive within the bound, not beyond.',
              design='DESIGN.md section 4 C16'),
+ 'C18': dict(technique='bounded symbolic execution of the real diagnostic statistics code (symrun + z3): symbolic verdicts, symbolic-equality label values partitioned by the real index, solver-chosen statuses/selections; differential against direct counting',
+             text='For <= 3 (4) tasks/results with every status, result pattern, symbolic verdict, label presence pattern and ARBITRARY label values '
+                  '(equality/order only), every ordered label selection: each task/result counted once under its status/verdict, MISSING tasks, '
+                  'OK+KO=total=results carrying the labels, nb_missing_labels, oracles and verdicts are decided on every path.',
+             design='DESIGN.md section 4 C18'),
 }
 
 NOT_YET = {}
